@@ -119,7 +119,14 @@ def rule2_wait(ctx, fl):
         ctx.ob('C05.2', 'myth_cond_wait_body: no early release', not early,
                'the waiter neither unlocks the mutex nor enqueues itself before the switch '
                '(both happen in the callback, after its context is saved)', loc=(early[0].loc if early else s.ins.loc))
-    ctx.floor('C05.2', 6)
+    # every call waits: no path returns without having passed the switch (a wait that refuses and returns - with the mutex still
+    # held and no release - turns "wait for the condition" into a busy loop or an error the caller does not expect)
+    if sw:
+        rets = [r for r in f.order if r.op == 'ret']
+        reach = f.reachable_from(f.entry_inst(), blocked=[x.ins for x in sw], include_start=True)
+        ctx.ob('C05.2', 'myth_cond_wait_body: every call releases the mutex and waits', not [r for r in rets if r in reach],
+               'no return is reachable without passing the release-and-wait switch', loc=f.loc)
+    ctx.floor('C05.2', 7)
 
 
 def rule3_signal(ctx, fl):
@@ -239,6 +246,8 @@ def run(ctx):
 
 SYNC = 'src/myth_sync_func.h'
 MUTANTS = [
+    {'name': 'cond_wait refuses a mutex other than the one it saw first (seed4 C05/m2)', 'expect': 'C05.2',
+     'edits': [(SYNC, "static inline int myth_cond_wait_body(myth_cond_t * cond, myth_mutex_t * mutex) {\n  myth_block_on_queue(cond->sleep_q, mutex);", "static inline int myth_cond_wait_body(myth_cond_t * cond, myth_mutex_t * mutex) {\n  static myth_mutex_t * bound;\n  if (bound && bound != mutex) return EINVAL;\n  bound = mutex;\n  myth_block_on_queue(cond->sleep_q, mutex);")]},
     {'name': 'signal returns early on a pending-wake flag (seed3 C05/m3)', 'expect': 'C05.3',
      'edits': [(SYNC, "static inline int myth_cond_signal_body(myth_cond_t * cond) {\n  myth_wake_if_any_from_queue(cond->sleep_q, 0, 0);", "static inline int myth_cond_signal_body(myth_cond_t * cond) {\n  static volatile int wake_pending;\n  if (wake_pending) return 0;\n  myth_wake_if_any_from_queue(cond->sleep_q, 0, 0);")]},
     {'name': 'native myth_cond_signal forwards to broadcast', 'expect': 'C05.5',
